@@ -14,7 +14,8 @@ PROP = {
   'points repl.updating_load / repl.updating_store / repl.read_lock / repl.write_lock (the extractor checks that these '
   'are the only accesses to updating_epoch and replicators and that each point directly precedes its access); the '
   'write-locked section is one step because replicators cannot change while the lock is held and the section makes at '
-  'most one access to updating_epoch; SeqCst atomics and parking_lot locks give a total order of these steps',
+  'exactly one access to updating_epoch (a store in either branch; the store after the install, fix be85753, has no '
+  'scheduling point of its own and belongs to the repl.write_lock step); SeqCst atomics and parking_lot locks give a total order of these steps',
   'the content of a SETCLUSTER message (cluster name, local/peer slot maps, config) is an opaque value in the model; '
   'the harness measures it as a routing fingerprint on a scratch proxy that has seen only this message',
   'a replicator record is its metadata (role, cluster, node address, peers); HashMaps are association lists compared as '
@@ -23,11 +24,10 @@ PROP = {
   'epoch installed at quiescence (a caller refused because a newer message is already in flight)',
  ],
  'gaps': [
-  'C05_repl_partial / C05_repl_max cover every interleaving of any number of NON-FORCED callers from a healthy state; '
-  'the unrestricted statement is false of the code: a forced SETREPL racing with another caller can leave updating_epoch '
-  'above the installed epoch, after which newer non-forced messages are refused (finding F05a, proved as '
-  'C05_repl_full_false with a 10-step schedule; reproduced on the real code in corpus/C05/setrepl.f05a.ops). '
-  'Sequential delivery with any flags is exact (C05_repl_seq); the per-step clauses (C05_repl_step) hold for all flags',
+  'C05_repl covers all flags: host rule, justification of every OLD_EPOCH at the moment it is answered, and health '
+  '(updating_epoch <= installed) at quiescence hold for every interleaving including forced callers; the clauses '
+  '"installed epoch never decreases" and "final installed = max delivered" (C05_repl_max) are stated for executions '
+  'without forced callers, as the property text does (a forced message may lower the epoch by design)',
   'migration tasks carried by a SETCLUSTER message (created/reused by create_new_migration_map from the previous '
   'snapshot) are outside the model; generated messages carry no migration tags',
   'the replicator tasks spawned after an install (their Redis traffic) are not modelled (DESIGN: not covered)',
@@ -63,5 +63,5 @@ CHECK = {
          '(replies, UMCTL GETEPOCH, routing probes) and SETREPL schedules (2-4 OS threads parked at the four scheduling '
          'points; thorough: all interleavings of three callers for five epoch/force patterns, ~86k schedules) against the model line by line.',
  'note': 'Trusted: Lean kernel; extractor shape checks; the scheduler harness; fingerprint probes. Not covered: migration '
-         'tasks inside SETCLUSTER, replicator task traffic, forced concurrent SETREPL (known finding F05a).',
+         'tasks inside SETCLUSTER, replicator task traffic.',
 }
